@@ -233,15 +233,23 @@ def _worker(args):
 
 
 # ---------------------------------------------------------------------------------------------- main driver
-def replay_file(runner, path):
+def run_text(runner, text, mod=None):
+    """one evaluation of a saved case text; properties whose oracle needs more than one execution (differential checks)
+    provide replay_text(text, runner)"""
+    if mod is not None and hasattr(mod, "replay_text"):
+        return mod.replay_text(text, runner)
+    return runner.run(text)
+
+
+def replay_file(runner, path, mod=None):
     text = open(path).read()
-    return runner.run(text), text
+    return run_text(runner, text, mod), text
 
 
-def confirm(variant, text, times, pid=None, known=None, timeout_fails=False):
+def confirm(variant, text, times, pid=None, known=None, timeout_fails=False, mod=None):
     r = Runner(variant); r.start(); fails = 0; last = None
     for _ in range(times):
-        v = r.run(text)
+        v = run_text(r, text, mod)
         if timeout_fails and v.get("v") == "timeout":
             v = dict(v); v["v"] = "fail"; v["sig"] = "timeout:no_verdict"
         if is_failure(v):
@@ -272,7 +280,7 @@ def run_check(modname, tier, seed, replay=None):
     # ---- replay mode
     if replay:
         r = Runner(variants[0]); r.start()
-        v, text = replay_file(r, replay); r.close()
+        v, text = replay_file(r, replay, mod); r.close()
         print(json.dumps(v)[:3000])
         if is_failure(v):
             kf = match_known(known, pid, v.get("sig", ""), v.get("detail", ""))
@@ -289,7 +297,7 @@ def run_check(modname, tier, seed, replay=None):
         r = Runner(variants[0]); r.start()
         for f in reg:
             path = os.path.join(rdir, f)
-            v, text = replay_file(r, path); nreg += 1
+            v, text = replay_file(r, path, mod); nreg += 1
             if is_failure(v):
                 kf = match_known(known, pid, v.get("sig", ""), v.get("detail", ""))
                 if kf:
@@ -331,10 +339,10 @@ def run_check(modname, tier, seed, replay=None):
                 continue                      # one confirmation per distinct signature
             tof = getattr(mod, "TIMEOUT_IS_FAILURE", False)
             times = 3
-            fails, last = confirm(variant, fl["text"], times, pid, known, tof)
+            fails, last = confirm(variant, fl["text"], times, pid, known, tof, mod)
             text = fl["text"]
             if fails == 0 and res["fail_first"]:
-                fails, last = confirm(variant, res["fail_first"]["text"], 10, pid, known, tof)
+                fails, last = confirm(variant, res["fail_first"]["text"], 10, pid, known, tof, mod)
                 text = res["fail_first"]["text"]
             if fails > 0:
                 confirmed_sigs.add(fsig)
@@ -356,7 +364,7 @@ def run_check(modname, tier, seed, replay=None):
             continue
         wpath = os.path.join(VERIF, f.get("witness", ""))
         if f.get("witness") and os.path.exists(wpath):
-            r = Runner(variants[0]); r.start(); v, _ = replay_file(r, wpath); r.close()
+            r = Runner(variants[0]); r.start(); v, _ = replay_file(r, wpath, mod); r.close()
             if is_failure(v) and match_known(known, pid, v.get("sig", ""), v.get("detail", "")) is f:
                 known_lines[f["signature_regex"]] = f
 
